@@ -31,6 +31,24 @@ ITER_EXCEPTIONS = {
 }
 
 
+def _no_cell_test(n):
+    """len(x.ownCells) == 0 | 0 == len(..) | len(..) < 1 | 1 > len(..) | len(..) <= 0 | not x.ownCells"""
+    def own_len(x):
+        return isinstance(x, ast.Call) and isinstance(x.func, ast.Name) and x.func.id == "len" and x.args and \
+            isinstance(x.args[0], ast.Attribute) and x.args[0].attr == "ownCells"
+    if isinstance(n, ast.UnaryOp) and isinstance(n.op, ast.Not) and isinstance(n.operand, ast.Attribute) and n.operand.attr == "ownCells":
+        return True
+    if isinstance(n, ast.Compare) and len(n.ops) == 1:
+        l, r, op = n.left, n.comparators[0], n.ops[0]
+        if own_len(l):
+            v = rules.const_value(r)
+            return (isinstance(op, ast.Eq) and v == 0) or (isinstance(op, ast.Lt) and v == 1) or (isinstance(op, ast.LtE) and v == 0)
+        if own_len(r):
+            v = rules.const_value(l)
+            return (isinstance(op, ast.Eq) and v == 0) or (isinstance(op, ast.Gt) and v == 1) or (isinstance(op, ast.GtE) and v == 0)
+    return False
+
+
 def _inner_conds(e, loop):
     gi = list(e.guard).index(loop)
     return [g for g in e.guard[gi + 1:] if g[0] not in ("loop", "while", "try", "except")]
@@ -235,12 +253,9 @@ def run(ctx):
                         edge_actions.append(n.lineno)
                 if n.func.attr == "remove" and isinstance(n.func.value, ast.Attribute) and n.func.value.attr == "vertices":
                     cell_actions.append(n.lineno)
-            elif isinstance(n, ast.Compare) and len(n.ops) == 1 and isinstance(n.ops[0], ast.Eq):
-                # guard 'the vertex belongs to no cell'
-                l, r = n.left, n.comparators[0]
-                if isinstance(l, ast.Call) and isinstance(l.func, ast.Name) and l.func.id == "len" and l.args and \
-                        isinstance(l.args[0], ast.Attribute) and l.args[0].attr == "ownCells" and rules.const_value(r) == 0:
-                    cell_actions.append(n.lineno)
+            elif _no_cell_test(n):
+                # guard 'the vertex belongs to no cell' (any spelling of "ownCells is empty")
+                cell_actions.append(n.lineno)
         for d in dels:
             n_del += 1
             before = [l for l in edge_actions if l < d.lineno]
